@@ -48,6 +48,8 @@ def self_fields_read(cx, b):
 
 
 def run(cx):
+    from rules.C09 import solver_defaults_rule
+    solver_defaults_rule(cx)
     for D in PROBS:
         d, P, RC = D['d'], D['P'], D['RC']
         short = P.split('::')[-1]
